@@ -24,6 +24,15 @@
    request x v3..6: one reply, success type with a body that an independent
    decoder parses, or a well-formed FXP_STATUS.  Every reply body of every
    server case goes through that independent decoder.
+   specs/SftpProto/SftpHandles.tla (handle life cycle): open / opendir,
+   close with the application's close() hook succeeding or raising, then any
+   handle-taking request on live, wrong-kind, closed, never issued, empty and
+   over-long handles; a handle is dead after the first CLOSE whatever the hook
+   did, dead / unknown / wrong-kind handles earn the version's invalid-handle
+   status, the hook runs at most once per open (counted in an SFTPServer
+   subclass), READDIR keeps answering EOF, handle strings are not reused;
+   sensitivity: removing the table entry only after the hook must be
+   rejected.  Behaviours are replayed by the raw client in v3..6.
 3. specs/SftpAttrs/SftpAttrs.tla (what each version carries): TLC enumerates
    field subsets x version and prints the expected carriage; every case is
    encoded and decoded with the real SFTPAttrs / SFTPName.
@@ -144,6 +153,17 @@ def main(ctx):
                     violate({'module': 'SftpAttrs', 'clause': clause,
                              'v': rp['v'], 'fields': rp['fields'],
                              'type': rp['type']}, text, rp)
+        elif rp['kind'] == 'handles':
+            sw = sftp_proto.ServerWorld()
+            try:
+                script = [(tuple(l), None) for l in rp['script']]
+                r = sftp_proto.handle_replay(sw, rp['v'], script)
+            finally:
+                sw.close()
+            print('trace:', r['trace'], r['l1'])
+            for clause, text in r['l1']:
+                violate({'module': 'SftpHandles', 'clause': clause,
+                         'v': rp['v'], 'script': rp['script']}, text, rp)
         elif rp['kind'] == 'server':
             sw = sftp_proto.ServerWorld()
             try:
@@ -218,6 +238,26 @@ def main(ctx):
             MaxN=6, Blocks='{1, 2}', MaxReqs='{2, 3}',
             Ops='{"read", "write", "get", "copy"}', SparseSet='{FALSE}',
             MaxAns=2)
+        hc = dict(Slots='{1, 2}', MaxSteps=4, Hooks='{"ok", "oserr", "sftperr"}',
+                  FileReqs='{"read", "write", "fstat", "fsetstat", "x_fsync", '
+                           '"x_fstatvfs", "block", "unblock", "x_ranges"}',
+                  DeleteAfterHook='FALSE')
+        hinv = ['DeadIsInvalid', 'HooksOnce', 'ClosedAtEnd', 'TableSound']
+        jobs['handles'] = ex.submit(
+            run_tlc, PROTO, 'SftpHandles', 'c14_handles',
+            hc if quick else dict(hc, Slots='{1, 2, 3}', MaxSteps=5), hinv,
+            ['EofStays'], 'view', workers=2 if quick else 4)
+        jobs['handles_dah'] = ex.submit(
+            run_tlc, PROTO, 'SftpHandles', 'c14_handles_dah',
+            dict(hc, DeleteAfterHook='TRUE'), ['DeadIsInvalid'], (), 'view')
+        jobs['handles_wit'] = ex.submit(
+            run_tlc, PROTO, 'SftpHandles', 'c14_handles_wit', hc,
+            ['NeverRefusedDead'], (), None)      # (the witness reads lbl)
+        dh = tlc.workdir('c14_simh_out')
+        jobs['sim_handles'] = ex.submit(
+            run_tlc, PROTO, 'SftpHandles', 'c14_simh', hc, (), (), None,
+            workers=4, simulate=f'file={dh}/tr,num={190 if quick else 2500}',
+            depth=7, seed=ctx.seed * 10 + 8, deadlock=False)
         jobs['srv'] = ex.submit(
             run_tlc, PROTO, 'SftpSrvCases', 'c14_srv',
             dict(Emit='TRUE', TypeAfterEncode='TRUE'),
@@ -272,6 +312,16 @@ def main(ctx):
                        expect_violation='NeverValue')
     ctx.require_tlc_ok('witness NeverClosed', res['wit_closed'],
                        expect_violation='NeverClosed')
+    ctx.require_tlc_ok('SftpHandles exhaustive', res['handles'])
+    ctx.require_tlc_ok('SftpHandles where the table entry goes only after the '
+                       'close hook returned (must violate DeadIsInvalid)',
+                       res['handles_dah'], expect_violation='DeadIsInvalid')
+    ctx.require_tlc_ok('witness NeverRefusedDead', res['handles_wit'],
+                       expect_violation='NeverRefusedDead')
+    if res['sim_handles'].error and res['sim_handles'].error != 'timeout':
+        raise MachineryError('simulate handles: ' + res['sim_handles'].error +
+                             res['sim_handles'].output[-2000:])
+    ctx.add_tlc('SftpHandles simulate', res['sim_handles'])
     ctx.require_tlc_ok('SftpSrvCases table', res['srv'])
     ctx.require_tlc_ok('SftpSrvCases without the version filter (must '
                        'violate NoFilterOk)', res['srv_nofilter'],
@@ -476,6 +526,45 @@ def main(ctx):
                         f'{got}, documented code is 8 (OP_UNSUPPORTED)')
         for s in sessions.values():
             s.close()
+        # ---- handle life cycle: behaviours of SftpHandles -------------------
+        nh = nh_dead = 0
+        seen_b = set()
+        for _name, steps in tlc.read_sim_traces(dh, 'tr_'):
+            v, script = sftp_proto.split_handle_behaviour(
+                [(st['lbl'], st) for _, st in steps])
+            key = (v, str(script))
+            if not script or key in seen_b:
+                continue
+            seen_b.add(key)
+            r = sftp_proto.handle_replay(sw, v, script)
+            nh += 1
+            closed_t = set()
+            for lbl, _ in script:
+                t = lbl[1] if lbl[0] == 'close' else \
+                    lbl[2] if lbl[0] == 'use' else None
+                nh_dead += t in closed_t
+                if lbl[0] == 'close':
+                    closed_t.add(t)
+            ctx.count(('handles', v, str(script)),
+                      any(l[0] == 'close' for l, _ in script))
+            if nh % 199 == 7:
+                ctx.sample({'part': 'handles', 'v': v, 'trace': r['trace']})
+            for clause in sorted({c for c, _ in r['l1']}):
+                text = '; '.join(x for c, x in r['l1'] if c == clause)
+                violate({'module': 'SftpHandles', 'clause': clause, 'v': v,
+                         'script': r['script']},
+                        f'{clause}: v{v} {r["script"]}: {text}',
+                        {'kind': 'handles', 'v': v, 'script': r['script']})
+            if r['diverged'] and not r['l1']:
+                ctx.divergence(f'SftpHandles: v{v} {r["script"]}: '
+                               f'{r["diverged"]}')
+        tlc.cleanup('c14_simh_out')
+        ctx.traces_validated(nh)
+        ctx.notes.append(f'handle life cycle behaviours replayed: {nh}, '
+                         f'requests naming an already closed handle: '
+                         f'{nh_dead}')
+        ctx.require(nh > 150 and nh_dead > 25,
+                    f'handle behaviours too thin: {nh} / {nh_dead}')
     finally:
         sw.close()
     ctx.notes.append(f'results that cannot be encoded: replies by type '
